@@ -329,11 +329,119 @@ def case_intersect(ctx, inp):
         why = _covers(old, new, impl[1])
         if why:
             ctx.fail("_intersect_1d: " + why, observed=impl[1])
+    if pos and sum(old) == sum(new) and old and sum(old) <= 60:
+        # element level (`planLocate`, theorem rechunk_locate): element q of new block j is read at (old block, offset);
+        # real side: the pieces of the real plan expanded, and the blocks `_compute_rechunk` really builds from arange
+        loc = ctx.lean(Sym("rechunk_locate"), old, new)
+        expanded = [[[i, r] for i, s, e in g for r in range(s, e)] for g in impl[1]]
+        ctx.eq("planLocate vs the real plan, element by element", loc, [Sym("ok"), expanded])
+        if old != new and ctx.rng.random() < 0.25:
+            import numpy as np
+            import dask.array as da
+            from dask.array.rechunk import _compute_rechunk
+            y = _compute_rechunk(da.from_array(np.arange(sum(old)), chunks=(tuple(old),)), (tuple(new),))
+            cum = [0]
+            for c in old:
+                cum.append(cum[-1] + c)
+            for j in range(len(new)):
+                got = y.blocks[j].compute(scheduler="sync").tolist()
+                want = [cum[i] + r for i, r in expanded[j]]
+                if got != want:
+                    ctx.fail("_compute_rechunk: a new block does not hold the elements the plan names",
+                             observed={"block": j, "got": got}, expected=want)
+                    break
+            ctx.branch("locate:real-blocks")
 
 
 # ---------------------------------------------------------------------------
 # planner arithmetic and real plans
 # ---------------------------------------------------------------------------
+
+class _PlanObserver:
+    """Records every call of find_merge_rechunk / find_split_rechunk made by plan_rechunk: arguments, result and -
+    through a profile hook on the function's return - the float-dependent `sorted_candidates` (the model's `order`)."""
+
+    def __init__(self, R):
+        self.R = R
+        self.merges = []   # (old, new, bsl, order, result)
+        self.splits = []   # (old, new, limit, result)
+
+    def __enter__(self):
+        import sys
+        R = self.R
+        self._fm, self._fs = R.find_merge_rechunk, R.find_split_rechunk
+        code = self._fm.__code__
+        cell = {}
+
+        def prof(frame, event, arg):
+            if event == "return" and frame.f_code is code:
+                cell["order"] = list(frame.f_locals.get("sorted_candidates", []))
+
+        def fm(old_chunks, new_chunks, block_size_limit):
+            cell.pop("order", None)
+            prev = sys.getprofile()
+            sys.setprofile(prof)
+            try:
+                r = self._fm(old_chunks, new_chunks, block_size_limit)
+            finally:
+                sys.setprofile(prev)
+            self.merges.append((old_chunks, new_chunks, block_size_limit, cell.get("order"), r))
+            return r
+
+        def fs(old_chunks, new_chunks, graph_size_limit):
+            r = self._fs(old_chunks, new_chunks, graph_size_limit)
+            self.splits.append((old_chunks, new_chunks, graph_size_limit, r))
+            return r
+
+        R.find_merge_rechunk, R.find_split_rechunk = fm, fs
+        return self
+
+    def __exit__(self, *a):
+        self.R.find_merge_rechunk, self.R.find_split_rechunk = self._fm, self._fs
+
+
+def _ll(t):
+    return [list(map(int, c)) for c in t]
+
+
+def _plan_model_diff(ctx, R, inp, old, new, steps, obs):
+    """plan_rechunk / find_merge_rechunk / find_split_rechunk against the Lean transliteration (Model/ChunksPlanner.lean).
+    The only float-dependent inputs of the model are the candidate orders, observed from the real calls."""
+    import dask
+    from fractions import Fraction
+    from dask.utils import parse_bytes
+    isz = int(inp["itemsize"])
+    thr = inp.get("threshold") or dask.config.get("array.rechunk.threshold")
+    bsl = inp.get("bsl") or dask.config.get("array.chunk-size")
+    bsl = parse_bytes(bsl) if isinstance(bsl, str) else bsl
+    if not (isinstance(thr, int) and isinstance(bsl, int)) or any(o[3] is None for o in obs.merges):
+        ctx.note("plan: outside the model (non-integer threshold/limit)")
+        return
+    lnum = max(bsl, R._largest_block_size(old) * isz, R._largest_block_size(new) * isz)
+    exact = all(Fraction(m[2]) == Fraction(lnum, isz) for m in obs.merges)
+    if not exact:
+        ctx.note("plan: block_size_limit/itemsize not exact in floating point (model skipped)")
+        return
+    orders = [m[3] for m in obs.merges]
+    model = ctx.lean(Sym("plan"), _ll(old), _ll(new), isz, thr, bsl, orders)
+    ctx.eq("plan_rechunk vs planRechunk", model, [Sym("ok"), [_ll(st) for st in steps]])
+    for (o, n, lim, order, (res, hit)) in obs.merges:
+        mm = ctx.lean(Sym("find_merge"), lnum, isz, _ll(o), _ll(n), order)
+        ctx.eq("find_merge_rechunk", mm, [Sym("ok"), _ll(res), bool(hit)])
+        if hit:
+            ctx.branch("plan:memory-limit-hit")
+        if tuple(res) != tuple(o) and tuple(res) != tuple(n) and any(
+                tuple(r) != tuple(a) and tuple(r) != tuple(b) for r, a, b in zip(res, o, n)):
+            ctx.branch("plan:merge-partial(divide_to_width)")
+    for (o, n, lim, res) in obs.splits:
+        if isinstance(lim, int):
+            mm = ctx.lean(Sym("find_split"), _ll(o), _ll(n), lim)
+            ctx.eq("find_split_rechunk", mm, [Sym("ok"), _ll(res)])
+            if tuple(res) != tuple(o):
+                ctx.branch("plan:split-changed")
+            else:
+                ctx.branch("plan:split-kept")
+
 
 def case_planner(ctx, inp):
     import importlib
@@ -354,16 +462,37 @@ def case_planner(ctx, inp):
                 ctx.branch("divide:splits")
     elif op == "merge":
         cs, n = inp["cs"], inp["n"]
-        got = list(map(int, R.merge_to_number(tuple(cs), n)))
-        model = ctx.lean(Sym("merge_to_number"), cs, n)
-        if model == ["unsupported"]:
+        try:
+            got = list(map(int, R.merge_to_number(tuple(cs), n)))
+            impl = [Sym("ok"), got]
+        except (IndexError, AssertionError, ZeroDivisionError) as e:
+            got, impl = None, [Sym("raised")]
+        model = ctx.lean(Sym("merge_full"), cs, n)   # all three paths (no-op, homogeneous, heap)
+        ctx.eq("merge_to_number", model, impl)
+        m_old = ctx.lean(Sym("merge_to_number"), cs, n)
+        if m_old == ["unsupported"]:
             ctx.branch("merge:heap-path")
-        else:
-            ctx.eq("merge_to_number", model, [Sym("ok"), got])
-            if len(cs) > n:
-                ctx.branch("merge:homogeneous")
+        elif len(cs) > n:
+            ctx.branch("merge:homogeneous")
+        if got is None:
+            if n >= 1 and all(c > 0 for c in cs):
+                ctx.fail("merge_to_number raised for positive chunks and max_number >= 1", observed=impl)
+            return
+        # clauses of merge_full_spec on the real output
         if sum(got) != sum(cs) or len(got) > max(n, 1) and len(cs) > n or any(c <= 0 for c in got):
             ctx.fail("merge_to_number: result does not add up / too many chunks / empty chunk", observed=got)
+        if all(c > 0 for c in cs) and len(cs) > n >= 1 and len(got) != n:
+            ctx.fail("merge_to_number: fewer chunks than max_number although more were available", observed=got)
+        cum_in, acc = set(), 0
+        for c in cs:
+            acc += c
+            cum_in.add(acc)
+        acc = 0
+        for c in got:
+            acc += c
+            if acc not in cum_in:
+                ctx.fail("merge_to_number: the result is not a merge of adjacent chunks", observed=got)
+                break
     elif op == "balance":
         import warnings
         cs = tuple(inp["cs"])
@@ -379,11 +508,14 @@ def case_planner(ctx, inp):
     elif op == "plan":
         old, new = [tuple(c) for c in inp["old"]], [tuple(c) for c in inp["new"]]
         old, new = tuple(old), tuple(new)
+        obs = _PlanObserver(R)
         try:
-            steps = R.plan_rechunk(old, new, inp["itemsize"], inp.get("threshold"), inp.get("bsl"))
+            with obs:
+                steps = R.plan_rechunk(old, new, inp["itemsize"], inp.get("threshold"), inp.get("bsl"))
         except Exception as e:
             ctx.fail(f"plan_rechunk raised {type(e).__name__} for valid old/new chunkings", observed=f"{type(e).__name__}: {e}"[:200])
             return
+        _plan_model_diff(ctx, R, inp, old, new, steps, obs)
         shape = [sum(c) for c in old]
         m = ctx.lean(Sym("graph_size"), [list(c) for c in old], [list(c) for c in new])
         ctx.eq("estimate_graph_size/_number_of_blocks/_largest_block_size", m,
@@ -484,7 +616,142 @@ def case_rechunk(ctx, inp):
         ctx.branch("api:balance")
 
 
-CASES = {"normalize": case_normalize, "intersect": case_intersect, "planner": case_planner, "rechunk": case_rechunk}
+def _task_canon(t):
+    """A comparable rendering of one low-level task (keys of the two graphs that coincide must hold the same task)."""
+    import numpy as np
+    from dask.base import tokenize
+    if isinstance(t, np.ndarray):
+        return ("ndarray", t.shape, str(t.dtype), t.tobytes())
+    return (type(t).__name__, repr(t), tokenize(t))
+
+
+def case_multi(ctx, inp):
+    """Several rechunks of the SAME source array living in one graph: `_compute_rechunk`'s task names (merge AND
+    split prefixes) must depend on the target chunks, otherwise the split tasks of one rechunk overwrite the other's
+    when the graphs are merged (dask.compute(y1, y2), y1 + y2, m @ m with asymmetric chunks)."""
+    import numpy as np
+    import dask
+    import dask.array as da
+    from dask.array.rechunk import _compute_rechunk
+    setup_dask()
+    old = tuple(tuple(c) for c in inp["old"])
+    shape = tuple(sum(c) for c in old)
+    x = (np.arange(int(np.prod(shape))) * 5 % 31 + 1).astype(inp.get("dtype", "i8")).reshape(shape)
+    d = da.from_array(x, chunks=old)
+    op = inp["op"]
+    if op == "matmul":
+        # m @ m: the contraction pairs axis 1 of the left operand with axis 0 of the right one -> the same array is
+        # rechunked to two different targets inside one graph whenever its two axes are chunked differently
+        want = x @ x
+        try:
+            r = d @ d
+            got = r.compute(scheduler="sync")
+        except Exception as e:
+            ctx.fail(f"m @ m with asymmetric chunks raised {type(e).__name__} (two rechunks of one source in one graph)",
+                     observed=f"{type(e).__name__}: {e}"[:200])
+            return
+        if got.shape != want.shape or not np.array_equal(got, want):
+            ctx.fail("m @ m with asymmetric chunks differs from NumPy (two rechunks of one source in one graph)",
+                     observed=got.tolist(), expected=want.tolist())
+        names = {k[0] for k in r.__dask_graph__() if isinstance(k, tuple) and str(k[0]).startswith("rechunk-")}
+        if len({n for n in names if n.startswith("rechunk-merge")}) >= 2:
+            ctx.branch("multi:matmul-two-rechunks")
+        return
+    targets = [tuple(tuple(c) for c in t) for t in inp["targets"]]
+    kw = {k: inp[k] for k in ("threshold", "block_size_limit") if inp.get(k) is not None}
+    # ---- function level: the layers `_compute_rechunk` builds for two targets -------------------------------
+    layers = []
+    for t in targets:
+        if t == old:
+            layers.append(None)
+            continue
+        y = _compute_rechunk(d, t)
+        lay = dict(y.__dask_graph__().layers[y.name])
+        layers.append((y.name, lay))
+        nsplit = sum(1 for k in lay if str(k[0]).startswith("rechunk-split"))
+        if nsplit:
+            ctx.branch("multi:split-tasks")
+    for i in range(len(targets)):
+        for j in range(i + 1, len(targets)):
+            if layers[i] is None or layers[j] is None:
+                continue
+            (ni, li), (nj, lj) = layers[i], layers[j]
+            common = set(li) & set(lj)
+            if targets[i] == targets[j]:
+                if ni != nj or any(_task_canon(li[k]) != _task_canon(lj[k]) for k in common) or set(li) != set(lj):
+                    ctx.fail("_compute_rechunk: the same rechunk built twice gives different graphs (non-deterministic names)",
+                             observed=[ni, nj])
+                ctx.branch("multi:same-target-twice")
+                continue
+            clash = sorted((str(k) for k in common if _task_canon(li[k]) != _task_canon(lj[k])))
+            if clash:
+                ctx.fail("_compute_rechunk: two different rechunks of the same array use the same key for different tasks "
+                         "(the task name does not depend on the target chunks)",
+                         observed={"targets": [targets[i], targets[j]], "keys": clash[:6]})
+            elif common:
+                ctx.branch("multi:shared-keys-identical-tasks")  # harmless: the same task under the same key
+            else:
+                ctx.branch("multi:keys-disjoint")
+    # ---- API level: computed together / combined elementwise ------------------------------------------------
+    try:
+        ys = [d.rechunk(t, **kw) for t in targets]
+    except Exception as e:
+        ctx.fail(f"rechunk raised {type(e).__name__} for a valid target", observed=str(e)[:200])
+        return
+    for y, t in zip(ys, targets):
+        if y.chunks != t:
+            ctx.fail("rechunk did not produce exactly the requested chunks", observed=y.chunks, expected=t)
+    # every key that occurs in several of the graphs must hold the same task in all of them
+    graphs = [dict(y.__dask_graph__()) for y in ys]
+    seen = {}
+    for gi, g in enumerate(graphs):
+        for k, v in g.items():
+            c = _task_canon(v)
+            if k in seen and seen[k][1] != c:
+                ctx.fail("two rechunks of the same array put different tasks under one key",
+                         observed={"key": str(k), "targets": [targets[seen[k][0]], targets[gi]]})
+                break
+            seen.setdefault(k, (gi, c))
+    try:
+        _multi_api(ctx, op, ys, targets, x)
+    except Exception as e:
+        ctx.fail(f"several rechunks of one array in one graph: {op} raised {type(e).__name__}",
+                 observed=f"{type(e).__name__}: {e}"[:200])
+
+
+def _multi_api(ctx, op, ys, targets, x):
+    import numpy as np
+    import dask
+    import dask.array as da
+    if op == "compute":
+        for optimize in (True, False):
+            outs = dask.compute(*ys, scheduler="sync", optimize_graph=optimize)
+            for o, t in zip(outs, targets):
+                if o.shape != x.shape or not np.array_equal(o, x):
+                    ctx.fail("dask.compute(y1, y2, ...) of several rechunks of one array: values changed"
+                             + ("" if optimize else " (optimize_graph=False)"),
+                             observed={"target": t, "got": o.tolist()}, expected=x.tolist())
+                    return
+        ctx.branch("multi:compute-together")
+    elif op == "add":
+        tot = ys[0]
+        for y in ys[1:]:
+            tot = tot + y
+        got = tot.compute(scheduler="sync")
+        want = x * len(ys)
+        if got.shape != want.shape or not np.array_equal(got, want):
+            ctx.fail("y1 + y2 of two rechunks of one array differs from NumPy", observed=got.tolist(), expected=want.tolist())
+        ctx.branch("multi:add")
+    elif op == "stack":
+        got = da.stack(ys).compute(scheduler="sync")
+        want = np.stack([x] * len(ys))
+        if got.shape != want.shape or not np.array_equal(got, want):
+            ctx.fail("da.stack of several rechunks of one array differs from NumPy", observed=got.tolist(), expected=want.tolist())
+        ctx.branch("multi:stack")
+
+
+CASES = {"normalize": case_normalize, "intersect": case_intersect, "planner": case_planner, "rechunk": case_rechunk,
+         "multi": case_multi}
 
 
 # ---------------------------------------------------------------------------
@@ -570,6 +837,53 @@ def _gen_transpose_like(rng):
     return old, new, itemsize, bsl, rng.choice([None, None, 1, 2, 3])
 
 
+def _refine(rng, c):
+    """A proper refinement of the chunking `c` (at least one block is split) when one exists."""
+    out = []
+    for x in c:
+        out.extend(rand_comp(rng, x, rng.choice(["irregular", "uniform", "ragged"])) if x > 1 and rng.random() < 0.7 else [x])
+    if out == list(c):
+        for i, x in enumerate(c):
+            if x > 1:
+                k = rng.randint(1, x - 1)
+                return list(c[:i]) + [k, x - k] + list(c[i + 1:])
+    return out
+
+
+def _gen_multi(ctx, rng):
+    yield {"op": "compute", "old": [[4], [6]], "targets": [[[2, 2], [6]], [[4], [3, 3]]]}
+    yield {"op": "add", "old": [[6]], "targets": [[[2, 4]], [[4, 2]]]}
+    yield {"op": "matmul", "old": [[4, 2], [3, 3]]}
+    for _ in range(ctx.n(60, 600)):
+        nd = rng.choice([1, 1, 2, 2, 3])
+        shape = [rng.randint(2, 12 if nd < 3 else 5) for _ in range(nd)]
+        r = rng.random()
+        if r < 0.6:
+            # coarse source, every target splits blocks (differently)
+            old = [rand_comp(rng, s, rng.choice(["single", "single", "uniform", "irregular"])) for s in shape]
+            k = rng.choice([2, 2, 2, 3])
+            targets = []
+            for _i in range(k):
+                t = [list(c) for c in old]
+                axes = [a for a in range(nd) if rng.random() < 0.6] or [rng.randrange(nd)]
+                for a in axes:
+                    t[a] = _refine(rng, old[a])
+                targets.append(t)
+        elif r < 0.85:
+            old = [rand_comp(rng, s) for s in shape]
+            targets = [[rand_comp(rng, s) for s in shape] for _i in range(rng.choice([2, 2, 3]))]
+        else:
+            old = [rand_comp(rng, s) for s in shape]
+            t = [rand_comp(rng, s) for s in shape]
+            targets = [t, [list(c) for c in t]]  # the same target twice: identical graphs
+        yield {"op": rng.choice(["compute", "compute", "add", "stack"]), "old": old, "targets": targets,
+               "threshold": rng.choice([None, None, 1]), "block_size_limit": rng.choice([None, None, 16, 64]),
+               "dtype": rng.choice(["i8", "i4"])}
+    for _ in range(ctx.n(25, 250)):
+        n = rng.randint(2, 9)
+        yield {"op": "matmul", "old": [rand_comp(rng, n), rand_comp(rng, n)]}
+
+
 def generate(ctx):
     rng = ctx.rng
     # --- regression / documented examples -------------------------------------------------
@@ -593,6 +907,9 @@ def generate(ctx):
         if i % 6 == 0 and math.prod(sum(c) for c in old) <= 12000 and math.prod(len(c) for c in new) <= 1500:
             yield "rechunk", {"old": old, "target": new, "threshold": th, "block_size_limit": bsl,
                               "dtype": {1: "i1", 4: "i4", 8: "i8"}[itemsize]}
+    # several rechunks of one source in one graph (task names must depend on the target chunks)
+    for inp in _gen_multi(ctx, rng):
+        yield "multi", inp
     # --- _intersect_1d incl. zero-length chunks, unequal sums --------------------------------
     for _ in range(ctx.n(350, 6000)):
         n = rng.randint(0, 40)
@@ -659,3 +976,9 @@ def generate(ctx):
             for o in comps(n):
                 for w in comps(n):
                     yield "rechunk", {"old": [list(o)], "target": [list(w)]}
+        # all pairs of proper refinements of a single chunk of length n, computed together
+        for n in range(2, 6):
+            cs = [list(c) for c in comps(n) if len(c) > 1]
+            for i, a in enumerate(cs):
+                for b in cs[i + 1:]:
+                    yield "multi", {"op": "compute", "old": [[n]], "targets": [[a], [b]]}
